@@ -536,7 +536,7 @@ def cmd_selftest(prop, runs):
         for workers in (16, 3):
             tmpdir = os.path.join(BUILD, 'tmp', f'st.{prop}.{os.getpid()}.{workers}')
             os.makedirs(tmpdir, exist_ok=True)
-            nruns = min(runs, l['runs'][0])   # a leg whose runs take seconds (C10 huge) is tested at its quick size
+            nruns = min(runs, l['runs'][0] or l['runs'][1])   # a leg whose runs take seconds (C10 huge) is tested at its quick size
             leg = Leg(prop, l['engine'], l['config'], l.get('variant', ''), nruns)
             run_leg(leg, 1, 'quick', tmpdir, digests=True, workers=workers)
             d = {}
